@@ -3883,7 +3883,9 @@ func (a *Association) popPendingDataChunksToSend( //nolint:cyclop,gocognit
 		}
 	}
 
-	if a.blockWrite && len(chunks) > 0 && a.pendingQueue.size() == 0 {
+	// A stream-reset marker may be the last element popped from the pending queue, in a
+	// call that sends no DATA; blocked writers must be released in that case as well.
+	if a.blockWrite && (len(chunks) > 0 || len(sisToReset) > 0) && a.pendingQueue.size() == 0 {
 		a.log.Tracef("[%s] all pending data have been sent, notify writable", a.name)
 		a.notifyBlockWritable()
 	}
